@@ -268,6 +268,11 @@ func (s *lifeSlot) predictValidate(signed bool) (string, string) {
 	docOK := f.validUnsigned
 	if signed {
 		docOK = f.validSigned
+		// the model's own rule (bill/invoice.go documents it as "required to sign
+		// invoice"): an invoice without a code is not valid for signing
+		if f.isInvoice && !f.hasCode {
+			docOK = false
+		}
 	}
 	if s.env.Schema == "" {
 		return "validation", "no-schema"
